@@ -18,6 +18,14 @@ if not m:
 if not m:
     sys.exit("statement of %s not found in %s" % (lemma, proofs))
 stmt = m.group(1).rstrip()
+# a lemma stated inside a Section is generalised over the section variables and hypotheses it uses when the
+# section is closed: ADD_PROP_PREFIX supplies that prefix ("forall ..., H1 -> H2 ->") for the Props statement
+import os
+prefix = os.environ.get("ADD_PROP_PREFIX", "").strip()
+if prefix:
+    if not stmt.lstrip().startswith(":"):
+        sys.exit("ADD_PROP_PREFIX needs a statement of the form `name : stmt`")
+    stmt = " : " + prefix + "\n  " + stmt.lstrip()[1:].lstrip()
 text = open(props).read()
 
 
